@@ -21,7 +21,7 @@ pub fn spec() -> CheckSpec {
     CheckSpec {
         id: "C03",
         level: "exploration",
-        rule: "proptest: a random valid history (reference model) drives a real node to a context past an epoch boundary and the proposal window; then a sequence of candidate blocks built on the tip (or on a side branch 1-3 blocks below it): boundary-valid candidates (timestamp = median+1 and = now+15000, extension of 32 and 96 bytes, maximum uncles, proposals at the limit, commits at exactly w_close and w_far) that must be attached, and single-rule mutations (63 operators: header number/epoch/timestamp/parent, cellbase count/position/outputs/data/type/witness/since, roots and hashes, duplicates, limits, extension shape and chain root, uncle epoch/number/descent/duplicate/double inclusion/count/proposals, commit outside the window on both sides, unproposed commit, double spend, unknown input, reward +-1 / lock / premature output, each DAO component +-1, compact target) that must be refused through the miner's submit pipeline with tip, total difficulty and the full C02 column scan unchanged, the block remembered as invalid, and every descendant refused. Every operator keeps all other commitments consistent (the model recomputes DAO, reward, roots for the mutated body). Non-trivial = candidate evaluated in a context of height >= w_far+2 past >=1 epoch boundary; distinct by hash of (plan, operator sequence index).",
+        rule: "proptest: a random valid history (reference model) drives a real node to a context past an epoch boundary and the proposal window; then a sequence of candidate blocks built on the tip (or on a side branch 1-3 blocks below it): boundary-valid candidates (timestamp = median+1 and = now+15000, extension of 32 and 96 bytes, maximum uncles, proposals at the limit, commits at exactly w_close and w_far; rival branches that overtake the chain and are overtaken again so that previously verified blocks are re-attached) that must be attached, and single-rule mutations (63 operators: header number/epoch/timestamp/parent, cellbase count/position/outputs/data/type/witness/since, roots and hashes, duplicates, limits, extension shape and chain root, uncle epoch/number/descent/duplicate/double inclusion/count/proposals, commit outside the window on both sides, unproposed commit, double spend, unknown input, reward +-1 / lock / premature output, each DAO component +-1, compact target) that must be refused through the miner's submit pipeline with tip, total difficulty and the full C02 column scan unchanged, the block remembered as invalid, and every descendant refused. Every operator keeps all other commitments consistent (the model recomputes DAO, reward, roots for the mutated body). Non-trivial = candidate evaluated in a context of height >= w_far+2 past >=1 epoch boundary; distinct by hash of (plan, operator sequence index).",
         assumptions: &[
             "proof-of-work is the Dummy engine in these specs (every nonce valid); PoW acceptance is checked in C07",
             "block size / cycle limits at the exact boundary are not generated in this tier",
@@ -50,7 +50,7 @@ enum Class {
     Chain,
 }
 
-const N_OPS: u8 = 76;
+const N_OPS: u8 = 78;
 
 fn variant_cfg(variant: u8) -> SpecCfg {
     let mut c = SpecCfg {
@@ -801,6 +801,94 @@ fn commit_window_scenario(w: &mut World, dist_kind: u8, aux: u16, st: &mut Stats
     evaluate(w, c, &cur, true, st)
 }
 
+/// switch-back scenario: a rival branch from 1-3 blocks below the tip overtakes the current chain
+/// A (A's top blocks are detached but stay verified), then A is extended until it is the heaviest
+/// again, so that the reorganisation re-attaches previously verified blocks plus new ones.  Every
+/// block is valid and must be accepted, and the heaviest head must be the tip after each step.
+/// With `with_mutant` the block that would make A heaviest again is first offered as a single-rule
+/// mutant: the whole multi-block reorganisation must be refused with the state unchanged.
+fn switch_back_scenario(w: &mut World, with_mutant: bool, aux: u16, st: &mut Stats) -> Verdict {
+    let a_tip = w.tip();
+    let n = w.tree.get(&a_tip).number;
+    if n < 3 {
+        return Ok(());
+    }
+    let d = (1 + aux as u64 % 3).min(n - 2);
+    let f = w.tree.ancestor(&a_tip, n - d).unwrap().hash.clone();
+    let a_td = w.tree.get(&a_tip).td.clone();
+    let mut cur = f.clone();
+    for _ in 0..(d + 4) {
+        let spec = w.plain_spec(&cur);
+        let b = w.tree.build(&cur, &spec, &w.opts()).map_err(|e| Violation::new("harness:build", e))?;
+        let td = b.td.clone();
+        match w.node.submit(&b.block) {
+            Ok(true) => {}
+            other => vfail!("valid-refused:rival-branch-block", "plain block #{} of a rival branch was not accepted: {other:?}", b.number),
+        }
+        cur = w.tree.insert(b);
+        if td > a_td {
+            break;
+        }
+        if w.tip() != a_tip {
+            vfail!("valid-lighter-moved-tip:rival-branch-block", "a rival branch block that is not heavier moved the tip");
+        }
+    }
+    if w.tree.get(&cur).td <= a_td {
+        return Ok(());
+    }
+    if w.tip() != cur {
+        vfail!("valid-not-attached:rival-branch", "a fully valid heavier rival branch (fork depth {d}) was accepted but the tip is {}", w.tip());
+    }
+    check_snapshot(&w.node.shared.snapshot(), &w.tree, "after the reorg to the rival branch", st)?;
+    st.label("scenario:reorg-to-rival-branch");
+    let b_td = w.tree.get(&cur).td.clone();
+    let mut acur = a_tip.clone();
+    for _ in 0..(d + 6) {
+        let spec = w.plain_spec(&acur);
+        let p = w.tree.build(&acur, &spec, &w.opts()).map_err(|e| Violation::new("harness:build", e))?;
+        let decisive = p.td > b_td;
+        if decisive && with_mutant {
+            let mop = ((aux >> 2) % 72) as u8;
+            if let Some(cand) = make(w, mop, &acur, aux) {
+                let class = cand.class;
+                let heavier = cand.mb.td > b_td;
+                let h = cand.mb.hash.clone();
+                st.label("scenario:switch-back-offered-a-mutant-first");
+                evaluate(w, cand, &acur, false, st)?;
+                if class == Class::Valid && heavier {
+                    // a boundary-valid candidate completed the switch-back itself
+                    if w.tip() != h {
+                        vfail!("valid-not-attached:switch-back", "boundary-valid block completing the switch-back is not the tip");
+                    }
+                    st.label("scenario:switch-back-to-verified-branch");
+                    return Ok(());
+                }
+            }
+        }
+        match w.node.submit(&p.block) {
+            Ok(true) => {}
+            other => vfail!(
+                "valid-refused:switch-back-block",
+                "plain block #{} extending the previously verified branch (fork depth {d}, decisive {decisive}) was not accepted: {other:?}",
+                p.number
+            ),
+        }
+        acur = w.tree.insert(p);
+        if decisive {
+            if w.tip() != acur {
+                vfail!("valid-not-attached:switch-back", "the previously verified branch is the heaviest again (fork depth {d}) but the tip is {}", w.tip());
+            }
+            check_snapshot(&w.node.shared.snapshot(), &w.tree, "after switching back to the previously verified branch", st)?;
+            st.label("scenario:switch-back-to-verified-branch");
+            return node_panic_violation();
+        }
+        if w.tip() != cur {
+            vfail!("valid-lighter-moved-tip:switch-back-block", "a block that does not make its branch heaviest moved the tip");
+        }
+    }
+    Ok(())
+}
+
 fn prop(case: &Case, st: &mut Stats) -> Verdict {
     let cfg = variant_cfg(case.variant);
     let env = build_env(&cfg);
@@ -836,6 +924,16 @@ fn prop(case: &Case, st: &mut Stats) -> Verdict {
         // (timestamps may legally decrease along a chain down to median+1, so take the maximum)
         let now = w.tree.order.iter().map(|h| w.tree.get(h).block.timestamp()).max().unwrap_or(0) + 100_000;
         w.set_now(now);
+        if *op >= 76 {
+            switch_back_scenario(&mut w, *op == 77, *aux, st).map_err(|mut v| {
+                v.detail = format!("[op {i}] {}", v.detail);
+                v
+            })?;
+            if tipn >= far + 2 && past_boundary {
+                st.nontrivial(&(serde_json::to_string(&case.plan).unwrap(), i, *op));
+            }
+            continue;
+        }
         if *op >= 72 {
             commit_window_scenario(&mut w, op - 72, *aux, st)?;
             if tipn >= far + 2 && past_boundary {
@@ -876,7 +974,7 @@ fn prop(case: &Case, st: &mut Stats) -> Verdict {
 
 fn run(ctx: &Ctx) {
     ctx.shrink_iters.set(100);
-    let cases = ctx.cases(400, 6000);
+    let cases = ctx.cases(1500, 12000);
     ctx.run_prop("context-x-candidates", cases, case_strategy(), prop);
 }
 
